@@ -5,8 +5,10 @@ import SaModel.Lemmas.C01LeafBridge
 and metadata `md` (what `build_builder` establishes; unchanged by every push because it only looks at the part of
 the state that survives `take`).  R2 relates `push` to `Spec.interpDT`, which is indexed by the field.
 
-Coverage of R2 (see notes/C01.md): all families except dictionaries whose value builder is not a
-Utf8/LargeUtf8 builder, for which `Shape` is `False` (R1 covers them).
+Coverage of R2 (see notes/C01.md): all families; of the dictionaries those whose value builder is a Utf8 / LargeUtf8
+builder or a builder that refuses `serialize_str` (`B.refusesStr`: every non-null push fails, the specification is
+undefined).  `Shape` is `False` for a dictionary whose value builder accepts strings without being a Utf8 / LargeUtf8
+builder (Utf8View, the parsing kinds, a nested dictionary — `dictValOpen` of Lemmas/C01NewShape.lean; R1 covers them).
 -/
 namespace SaModel.Build
 open SaModel SaModel.Spec
